@@ -152,7 +152,7 @@ def gen_case_random(rng, max_ops=26, kind="mixed"):
                 e, lb = rng.choice(debtors)
                 abs_ = [bb for (aa, bb), v in led.items() if aa == e and v > 0]
                 ab = rng.choice(abs_) if abs_ else rng.randrange(nb)
-                liqor = rng.choice([x for x in range(na) if x != e])
+                liqor = rng.choice([x for x in range(na) if x != e]) if rng.random() < 0.93 else e   # sometimes itself: refused (AccountBorrowFailed)
                 have = led.get((e, ab), 0)
                 have = max(0, have)
                 amt = rng.choice([1, max(1, have // 10), max(1, have // 2), max(1, have), have + 1, G.gen_amount(rng)])
@@ -239,7 +239,7 @@ def gen_case_scenario(rng, max_ops=26):
                 ops.append([19, d, info[d]["price"]])
         elif r < 0.55:
             amt = rng.choice([1, max(1, camt // 1000), max(1, camt // 100), max(1, camt // 100), max(1, camt // 10), max(1, camt // 3), max(1, camt // 2), camt, camt + 1])
-            ops.append([17, 0, a, c, d, amt])
+            ops.append([17, 0 if rng.random() < 0.97 else a, a, c, d, amt])
         elif r < 0.63:
             if rng.random() < 0.6:
                 # wipe out the collateral first so that the account is really bankrupt
